@@ -25,6 +25,7 @@ type Program struct {
 	Fset     *token.FileSet
 	Pkgs     map[string]*ssa.Package
 	repoFn   sync.Map // *ssa.Function -> bool
+	harnFn   sync.Map
 	LoadTime time.Duration
 }
 
@@ -101,6 +102,23 @@ func (P *Program) isRepoFn(fn *ssa.Function) bool {
 	return res
 }
 
+// isHarnessFn reports whether fn is harness code (zz_verif files): exempt from loop bounds.
+func (P *Program) isHarnessFn(fn *ssa.Function) bool {
+	if v, ok := P.harnFn.Load(fn); ok {
+		return v.(bool)
+	}
+	res := false
+	f := fn
+	for f.Parent() != nil {
+		f = f.Parent()
+	}
+	if pos := f.Pos(); pos != token.NoPos {
+		res = strings.Contains(P.Fset.Position(pos).Filename, "zz_verif") || strings.Contains(P.Fset.Position(pos).Filename, "/zzverif/")
+	}
+	P.harnFn.Store(fn, res)
+	return res
+}
+
 func derefNamed(t types.Type) (*types.Named, bool) {
 	if p, ok := t.(*types.Pointer); ok {
 		t = p.Elem()
@@ -115,14 +133,14 @@ func initAllowed(path string) bool {
 		return true
 	}
 	switch path {
-	case "errors", "io", "io/fs", "internal/oserror", "unicode", "unicode/utf8", "unicode/utf16",
+	case "io", "io/fs", "internal/oserror", "unicode", "unicode/utf8", "unicode/utf16",
 		"strconv", "sort", "slices", "strings", "bytes", "math", "math/bits", "time", "bufio",
 		"regexp", "regexp/syntax", "rsc.io/binaryregexp", "rsc.io/binaryregexp/syntax",
 		"encoding/binary", "context", "path", "path/filepath", "os", "cmp", "maps", "iter",
-		"container/heap", "container/list", "encoding/hex", "encoding/base64", "net/netip", "net",
+		"container/heap", "container/list", "encoding/hex", "encoding/base64",
 		"internal/bytealg", "internal/byteorder", "internal/itoa", "internal/stringslite",
-		"math/rand", "hash/crc32", "hash", "fmt", "internal/fmtsort", "syscall", "net/http",
-		"github.com/gopacket/gopacket/layers", "github.com/gopacket/gopacket", "text/scanner":
+		"hash", "fmt", "internal/fmtsort", "net",
+		"github.com/gopacket/gopacket/layers", "github.com/gopacket/gopacket":
 		return true
 	}
 	return false
